@@ -331,8 +331,36 @@ def trace_nontrivial(trace):
 COUNTS = {}
 
 
+def run_fault_case(case):
+    """a load that fails with a transient I/O error must leave the variable usable: the loads
+    that follow (same thread, other threads, pickled copy) finish and return the right values"""
+    acts = actors(case["scenario"])
+    refs = [sequential(w, g, s) for (w, g), s in zip(acts, case["sels"])]
+    vtrace.STORE.fail_reads = 1
+    try:
+        results, errors, sched = run_threads(acts[:1], case["sels"][:1], [])
+    finally:
+        vtrace.STORE.fail_reads = 0
+    out = []
+    ctx = {"scenario": case["scenario"], "after": "a load that failed with an injected OSError"}
+    if 0 not in errors:
+        out.append(harness.disc("io-error-swallowed", "load with a failing read", "the OSError is raised", "values returned", **ctx))
+    results, errors, sched = run_threads(acts, case["sels"], case["schedule"])
+    if sched.deadlock:
+        return out + [harness.disc("deadlock", "loads after a failed load", "all threads finish", f"no runnable thread; lock owners {sched.owner}", **ctx)]
+    for tid, ref in enumerate(refs):
+        if tid in errors:
+            out.append(harness.disc("exception-in-thread", "loads after a failed load", "values", errors[tid], thread=tid, **ctx))
+        elif tid not in results or not harness.array_bytes_equal(results[tid], ref):
+            out.append(harness.disc("wrong-values", "loads after a failed load", "the sequential values", "other values", thread=tid, **ctx))
+    return out
+
+
 def run_case(case):
     key = harness.case_hash(case)
+    if case["mode"] == "fault":
+        COUNTS[key] = [((), True)]
+        return run_fault_case(case)
     if case["mode"] == "schedule":
         out, sched = execute(case["scenario"], case["sels"], case["schedule"])
         COUNTS[key] = [(tuple(sched.choices), trace_nontrivial(sched.trace))]
@@ -392,6 +420,8 @@ def dfs_cases(tier):
             for a in range(n):
                 for b in range(n):
                     yield {"mode": "dfs", "scenario": scenario, "sels": sels, "prefix": [a, b], "limit": limit}
+        for k, sels in enumerate(sel_sets[:2]):
+            yield {"mode": "fault", "scenario": scenario, "sels": sels, "schedule": [k, 1, 0, 1, 1, 0]}
 
 
 @st.composite
